@@ -849,6 +849,15 @@ func c16Check(k *kernel.K, exs []*logEx, p *logPass, opt map[string]bool) {
 		for _, h := range e.resp.Header {
 			wantH[strings.ToLower(h.Name)] = append(wantH[strings.ToLower(h.Name)], h.Value)
 		}
+		// the framing header the origin sent is part of the message
+		if e.req.Method != "HEAD" && e.resp.Status != 204 {
+			switch e.resp.Framing {
+			case "cl":
+				wantH["content-length"] = []string{fmt.Sprint(len(e.resp.Body))}
+			case "chunked":
+				wantH["transfer-encoding"] = []string{"chunked"}
+			}
+		}
 		gotH := map[string][]string{}
 		for _, h := range rs.Headers {
 			gotH[strings.ToLower(h.Name)] = append(gotH[strings.ToLower(h.Name)], h.Value)
